@@ -635,7 +635,7 @@ package geometry
 //@   ensures movedOf(q, ps, dx, dy)
 
 //@ func baseSeries.Move
-//@   props C12 C04
+//@   props C12 C04 C01 C02 C03 C08
 //@   requires series != nil
 //@   requires Exact: moveExactS(series.points, deltaX, deltaY)
 //@   ensures Fresh: result != nil && isBS(result) && !old($alloc)[result]
@@ -673,7 +673,7 @@ package geometry
 //@ spec func lineMovedS(n *Line, l *Line, dx real, dy real) bool {
 //@     n != nil && bsClosed(n.baseSeries) == bsClosed(l.baseSeries) && movedOf(bsPoints(n.baseSeries), bsPoints(l.baseSeries), dx, dy) && IndexInv(n.baseSeries) }
 //@ func Line.Move
-//@   props C12 C04
+//@   props C12 C04 C01 C02 C03 C08
 //@   requires line != nil ==> moveExactS(line.baseSeries.points, deltaX, deltaY)
 //@   ensures Nil: (result == nil) == (line == nil)
 //@   ensures Moved: line != nil ==> (lineMovedS(result, line, deltaX, deltaY) && !old($alloc)[result])
@@ -724,15 +724,15 @@ package geometry
 //@   ret have HolesInvO: (poly != nil && poly.Exterior != nil) ==> (forall h int :: 0 <= h && h < polyNHoles(result) ==> (polyHole(result,h) != nil && RingInv(polyHole(result,h))))
 
 //@ func baseSeries.Index
-//@   props C12 C04
+//@   props C12 C04 C01 C02 C03 C08
 //@   requires series != nil
 //@   ensures result == series.index
 
 //@ func Rect.Index
-//@   props C04 C05
+//@   props C04 C05 C01 C02 C03 C08 C12
 //@   ensures result == nil
 //@ func baseSeries.clearIndex
-//@   props C04 C05
+//@   props C04 C05 C01 C02 C03 C08 C12
 //@   requires series != nil
 //@   modifies baseSeries.index
 //@   ensures series.index == nil && IndexInv(series)
